@@ -1,19 +1,28 @@
 """Recursive spec functions as uninterpreted symbols plus rules instantiated by the generator.
 
 A rule belongs to one spec function `f` and fires on an application f(args) found in a VC when
-the argument at `pos` has a decomposition of the given `shape` in the path's term bank
-('cons', 'snoc', 'concat', 'empty'), or unconditionally ('always').  `make(args, parts)` returns a
-z3 formula: one instance of the function's defining equation (kind='definition') or of a lemma
-(kind='lemma', which must be proved by its own obligations, see Lemma)."""
+the argument at `pos` is known to have a given *shape*:
+  'cons'   arg == [x] ++ r        parts (x, r)
+  'snoc'   arg == s ++ [x]        parts (s, x)
+  'concat' arg == a ++ b          parts (a, b)
+  'empty'  arg == []              parts ()
+  'app:g'  arg == g(...)          parts = g's arguments
+  'always'                        parts ()
+Shapes come from (1) the term's own syntax, (2) decompositions the executor registered in the
+path's term bank when it popped / appended / iterated, (3) top-level equalities of the VC
+(aliases), (4) right-hand sides of instances produced earlier (chaining).
+The instance is   arg == shape_term  =>  f(args) == rhs(args, parts)   -- valid for every choice
+of parts because rhs is the defining equation (kind='definition') or a lemma proved separately
+(kind='lemma').  Instantiating at fewer terms can only lose proofs, never soundness."""
 from __future__ import annotations
 
-from dataclasses import dataclass, field
+from dataclasses import dataclass
 from typing import Any, Callable, Sequence
 
 import z3
 
 from .core import TermBank, mk_cons, mk_snoc
-from .values import Sort, V, VTerm
+from .values import Sort, V
 
 
 @dataclass
@@ -21,7 +30,7 @@ class Rule:
     name: str
     pos: int
     shape: str
-    make: Callable[[Sequence[Any], tuple], Any]
+    rhs: Callable[[Sequence[Any], tuple], Any]
     kind: str = "definition"
 
 
@@ -51,7 +60,6 @@ class SpecLib:
     def __init__(self) -> None:
         self.fns: dict[str, SpecFn] = {}
         self.by_decl: dict[int, SpecFn] = {}
-        self.global_rules: list[Callable[[Any, TermBank], list[Any]]] = []
 
     def add(self, f: SpecFn) -> SpecFn:
         self.fns[f.name] = f
@@ -60,6 +68,131 @@ class SpecLib:
 
     def fn(self, name: str, arg_sorts: Sequence[Sort], ret: Sort) -> SpecFn:
         return self.add(SpecFn(name, arg_sorts, ret))
+
+
+def _is_seq(t: Any) -> bool:
+    try:
+        return z3.is_seq(t) and not z3.is_string(t)
+    except Exception:
+        return False
+
+
+def syntactic_shapes(t: Any) -> list[tuple]:
+    out: list[tuple] = []
+    if not z3.is_app(t):
+        return out
+    k = t.decl().kind()
+    if k == z3.Z3_OP_SEQ_EMPTY:
+        out.append(("empty",))
+    elif k == z3.Z3_OP_SEQ_UNIT:
+        e = z3.Empty(t.sort())
+        out.append(("cons", t.arg(0), e))
+        out.append(("snoc", e, t.arg(0)))
+    elif k == z3.Z3_OP_SEQ_CONCAT and t.num_args() == 2:
+        a, b = t.arg(0), t.arg(1)
+        if z3.is_app(a) and a.decl().kind() == z3.Z3_OP_SEQ_EMPTY:
+            out.extend(syntactic_shapes(b))
+        if z3.is_app(b) and b.decl().kind() == z3.Z3_OP_SEQ_EMPTY:
+            out.extend(syntactic_shapes(a))
+        if z3.is_app(a) and a.decl().kind() == z3.Z3_OP_SEQ_UNIT:
+            out.append(("cons", a.arg(0), b))
+        if z3.is_app(b) and b.decl().kind() == z3.Z3_OP_SEQ_UNIT:
+            out.append(("snoc", a, b.arg(0)))
+        out.append(("concat", a, b))
+    elif k == z3.Z3_OP_SEQ_CONCAT and t.num_args() > 2:
+        args = [t.arg(i) for i in range(t.num_args())]
+        first, rest = args[0], (z3.Concat(*args[1:]) if len(args) > 2 else args[1])
+        out.append(("concat", first, rest))
+        if z3.is_app(first) and first.decl().kind() == z3.Z3_OP_SEQ_UNIT:
+            out.append(("cons", first.arg(0), rest))
+    return out
+
+
+def shape_term(shape: tuple, sort: Any) -> Any:
+    k = shape[0]
+    if k == "cons":
+        return mk_cons(shape[1], shape[2])
+    if k == "snoc":
+        return mk_snoc(shape[1], shape[2])
+    if k == "concat":
+        return z3.Concat(shape[1], shape[2])
+    if k == "empty":
+        return z3.Empty(sort)
+    raise ValueError(k)
+
+
+class _Matcher:
+    def __init__(self, bank: TermBank, lib: SpecLib) -> None:
+        self.bank = bank
+        self.lib = lib
+        self.alias: dict[int, list[Any]] = {}
+
+    def add_alias(self, a: Any, b: Any) -> None:
+        for x, y in ((a, b), (b, a)):
+            lst = self.alias.setdefault(x.get_id(), [])
+            if all(y.get_id() != z.get_id() for z in lst):
+                lst.append(y)
+
+    def learn_equalities(self, formulas: Sequence[Any]) -> None:
+        for f in formulas:
+            try:
+                f = z3.simplify(f) if z3.is_not(f) else f
+            except Exception:
+                pass
+            stack = [f]
+            while stack:
+                g = stack.pop()
+                if z3.is_and(g):
+                    stack.extend(g.children())
+                elif z3.is_eq(g) and _is_seq(g.arg(0)):
+                    self.add_alias(g.arg(0), g.arg(1))
+                elif (z3.is_le(g) or z3.is_eq(g)) and z3.is_app(g.arg(0)) and g.arg(0).decl().kind() == z3.Z3_OP_SEQ_LENGTH \
+                        and z3.is_int_value(g.arg(1)) and g.arg(1).as_long() == 0 and _is_seq(g.arg(0).arg(0)):
+                    t = g.arg(0).arg(0)          # len(t) <= 0  /  len(t) == 0   =>   t == []
+                    self.add_alias(t, z3.Empty(t.sort()))
+                elif z3.is_not(g) and z3.is_app(g.arg(0)) and (z3.is_gt(g.arg(0)) or z3.is_ge(g.arg(0))):
+                    h = z3.simplify(g)
+                    if not z3.is_not(h):
+                        stack.append(h)
+                elif z3.is_implies(g):
+                    # guarded instance: arg == shape => f(args) == rhs ; keep the conclusion as alias
+                    c = g.arg(1)
+                    if z3.is_eq(c) and _is_seq(c.arg(0)):
+                        self.add_alias(c.arg(0), c.arg(1))
+
+    def views(self, t: Any) -> list[Any]:
+        out = [t]
+        seen = {t.get_id()}
+        frontier = [t]
+        for _ in range(2):
+            nxt = []
+            for x in frontier:
+                for y in self.alias.get(x.get_id(), []):
+                    if y.get_id() not in seen:
+                        seen.add(y.get_id())
+                        out.append(y)
+                        nxt.append(y)
+            frontier = nxt
+        return out
+
+    def shapes(self, t: Any, kind: str) -> list[tuple]:
+        res: list[tuple] = []
+        keys: set[tuple] = set()
+        for v in self.views(t):
+            if kind.startswith("app:"):
+                g = kind[4:]
+                if z3.is_app(v) and v.decl().name() == g:
+                    cand = [("app",) + tuple(v.children())]
+                else:
+                    cand = []
+            else:
+                cand = [s for s in syntactic_shapes(v) if s[0] == kind] + self.bank.get(v, kind)
+            for s in cand:
+                key = (s[0],) + tuple(p.get_id() for p in s[1:])
+                if key not in keys:
+                    keys.add(key)
+                    res.append(s)
+        return res
 
 
 def _walk_apps(formulas: Sequence[Any], lib: SpecLib, seen_terms: set[int]):
@@ -74,68 +207,59 @@ def _walk_apps(formulas: Sequence[Any], lib: SpecLib, seen_terms: set[int]):
             stack.append(t.body())
             continue
         if z3.is_app(t):
-            d = t.decl()
-            f = lib.by_decl.get(d.get_id())
+            f = lib.by_decl.get(t.decl().get_id())
             if f is not None:
                 yield f, t
             stack.extend(t.children())
 
 
-def instantiate(hyps: Sequence[Any], goal: Any, bank: TermBank, lib: SpecLib, rounds: int = 4, limit: int = 4000):
+def instantiate(hyps: Sequence[Any], goal: Any, bank: TermBank, lib: SpecLib, rounds: int = 6, limit: int = 3000,
+                lemma_rules: set[str] | None = None):
+    # lemma_rules: None = every rule may fire (function proofs; all lemmas are proved separately);
+    # a set = only definitions plus the named lemma rules (used while proving a lemma: no circularity)
     """Generator-side E-matching: returns rule instances relevant to this VC."""
+    m = _Matcher(bank, lib)
+    m.learn_equalities(hyps)
     instances: list[Any] = []
-    inst_ids: set[int] = set()
+    inst_keys: set[tuple] = set()
     seen_terms: set[int] = set()
-    seen_apps: set[int] = set()
+    apps: list[tuple[SpecFn, Any]] = []
     frontier: list[Any] = list(hyps) + [goal]
     used: dict[str, int] = {}
     for _ in range(rounds):
+        apps.extend(_walk_apps(frontier, lib, seen_terms))
         new_formulas: list[Any] = []
-        for f, app in list(_walk_apps(frontier, lib, seen_terms)):
-            if app.get_id() in seen_apps:
-                continue
-            seen_apps.add(app.get_id())
+        for f, app in apps:
             args = app.children()
             for r in f.rules:
+                if lemma_rules is not None and r.kind == "lemma" and r.name not in lemma_rules:
+                    continue
                 if r.shape == "always":
-                    partses = [()]
+                    shapes: list[tuple] = [("always",)]
                 else:
-                    partses = [s[1:] for s in bank.get(args[r.pos], r.shape)]
-                for parts in partses:
-                    inst = r.make(args, parts)
-                    if inst is None:
+                    shapes = m.shapes(args[r.pos], r.shape)
+                for sh in shapes:
+                    key = (app.get_id(), r.name) + tuple(p.get_id() for p in sh[1:])
+                    if key in inst_keys:
                         continue
-                    for one in (inst if isinstance(inst, (list, tuple)) else [inst]):
-                        if one.get_id() in inst_ids:
-                            continue
-                        inst_ids.add(one.get_id())
-                        instances.append(one)
-                        new_formulas.append(one)
-                        used[r.name] = used.get(r.name, 0) + 1
-                        # terms created by the instance may carry new decompositions
-                        _register_shapes(one, bank)
+                    inst_keys.add(key)
+                    rhs = r.rhs(args, sh[1:])
+                    if rhs is None:
+                        continue
+                    concl = app == rhs
+                    if sh[0] in ("always", "app"):
+                        inst = concl
+                    else:
+                        st = shape_term(sh, args[r.pos].sort())
+                        inst = concl if st.get_id() == args[r.pos].get_id() else z3.Implies(args[r.pos] == st, concl)
+                    instances.append(inst)
+                    new_formulas.append(inst)
+                    used[r.name] = used.get(r.name, 0) + 1
+                    if _is_seq(app):
+                        m.add_alias(app, rhs)
             if len(instances) > limit:
                 return instances, used
         if not new_formulas:
             break
         frontier = new_formulas
     return instances, used
-
-
-def _register_shapes(formula: Any, bank: TermBank) -> None:
-    """Register cons/snoc/concat shapes of sequence terms appearing in a rule instance."""
-    stack = [formula]
-    seen: set[int] = set()
-    while stack:
-        t = stack.pop()
-        if t.get_id() in seen or not z3.is_app(t):
-            continue
-        seen.add(t.get_id())
-        if t.decl().kind() == z3.Z3_OP_SEQ_CONCAT and t.num_args() == 2:
-            a, b = t.arg(0), t.arg(1)
-            if z3.is_app(a) and a.decl().kind() == z3.Z3_OP_SEQ_UNIT:
-                bank.add(t, ("cons", a.arg(0), b))
-            if z3.is_app(b) and b.decl().kind() == z3.Z3_OP_SEQ_UNIT:
-                bank.add(t, ("snoc", a, b.arg(0)))
-            bank.add(t, ("concat", a, b))
-        stack.extend(t.children())
